@@ -1572,6 +1572,7 @@ bool MEDDLY::dd_edge::getElemInt(long index, minterm &m) const
     MEDDLY_DCASSERT(fp->getEdgeType() == edge_type::LONG);
 
     if (index < 0) return false;
+    if (0 == node) return false;    // empty set: no elements, nothing to unpack
 
     node_handle p = node;
     unpacked_node* U = unpacked_node::New(fp, SPARSE_ONLY);
@@ -1629,6 +1630,7 @@ bool MEDDLY::dd_edge::getElemLong(long index, minterm &m) const
     MEDDLY_DCASSERT(fp->getEdgeType() == edge_type::LONG);
 
     if (index < 0) return false;
+    if (0 == node) return false;    // empty set: no elements, nothing to unpack
 
     node_handle p = node;
     unpacked_node* U = unpacked_node::New(fp, SPARSE_ONLY);
